@@ -1220,7 +1220,7 @@ func (e *encT) def(l *hx.Line, t reflect.Type) {
 		l.Tok("F")
 		str(l, f.Name)
 		l.Bool(f.IsExported())
-		for _, k := range []string{"json", "validate", "query", "path", "header", "cookie", "default", "style", "explode"} {
+		for _, k := range []string{"json", "validate", "query", "path", "header", "cookie", "default", "style", "explode", "doc", "example", "enum", "format"} {
 			str(l, f.Tag.Get(k))
 		}
 		// type identity after one pointer level (inferFormat compares with net.IP and url.URL)
@@ -1777,6 +1777,20 @@ func genStruct(r *hx.Rand, d int, req bool) TX {
 		}
 		if v := hx.Pick(r, dynValidate); v != "" {
 			tags = append(tags, fmt.Sprintf(`validate:"%s"`, v))
+		}
+		// doc / example / enum / format tags: read by structSchema (doc, example) and by the parameter
+		// introspection (all four)
+		if r.Chance(1, 4) {
+			tags = append(tags, fmt.Sprintf(`doc:"%s"`, hx.Pick(r, []string{"the id", "free text, with a comma", "x", "Name of the thing."})))
+		}
+		if r.Chance(1, 4) {
+			tags = append(tags, fmt.Sprintf(`example:"%s"`, hx.Pick(r, defaultValues)))
+		}
+		if r.Chance(1, 6) {
+			tags = append(tags, fmt.Sprintf(`enum:"%s"`, hx.Pick(r, []string{"a,b,c", " a , b ", "1,2,3", ",,", "x", "a,a"})))
+		}
+		if r.Chance(1, 6) {
+			tags = append(tags, fmt.Sprintf(`format:"%s"`, hx.Pick(r, []string{"int64", "email", "custom-fmt", "date", "uuid"})))
 		}
 		ft := genTX(r, d)
 		if ft.K == "nil" {
